@@ -596,6 +596,11 @@ VARIANTS += [
 ]
 # ---- fourth round: rules derived from the mutation sweep and the fourth batch of seeded changes
 VARIANTS += [
+    Variant("twin-losses-for-ancestors-correct", LAYOUT, [
+        ("    prev_species = start_species\n    start_species = start_species.up\n\n    while start_species != end_species:\n", "    prev_species = start_species\n\n    for start_species in prev_species.iter_ancestors():\n        if start_species == end_species:\n            break\n\n"),
+        ("        prev_gene = cur_gene\n        prev_species = start_species\n        start_species = start_species.up\n", "        prev_gene = cur_gene\n        prev_species = start_species\n"),
+    ], (), twin=True, note="the walk up the species tree written as a for loop over the ancestors, with the carried update kept"),
+    T("twin-thl-skip-infinite-subcost", REC, "        if species_lca.is_ancestor_of(root_species, other_species):\n            conserv_loss", "        if table[left_node][other_species].is_infinite() and table[right_node][other_species].is_infinite():\n            continue\n\n        if species_lca.is_ancestor_of(root_species, other_species):\n            conserv_loss"),
     Variant("twin-thl-combinator-factory", REC, [
         ("    def dup_combinator(left, right):\n        return Candidate(\n            dup_cost + left.value + right.value,\n            MappingInfo(left.info, right.info),\n        )\n",
          "    def make_combinator(event_cost):\n        return lambda left, right: Candidate(\n            event_cost + left.value + right.value,\n            MappingInfo(left.info, right.info),\n        )\n\n    dup_combinator = make_combinator(dup_cost)\n"),
